@@ -37,6 +37,37 @@ Proof.
 Qed.
 End Steps.
 
+(* the same for the centred forward model (NumPy API, torch Fraunhofer-free methods written with the kernel in the shifted frame) *)
+Section CenteredSteps.
+Variables n m : nat.
+Variables F Finv S Sinv : fld -> fld.
+Hypothesis F_dom : forall u, F (clip n m u) = F u.
+Hypothesis Finv_dom : forall u, Finv (clip n m u) = Finv u.
+Hypothesis Sinv_dom : forall u, Sinv (clip n m u) = Sinv u.
+Hypothesis Finv_F : forall u, Finv (F u) = clip n m u.
+Hypothesis F_Finv : forall u, F (Finv u) = clip n m u.
+Hypothesis S_Sinv : forall u, S (Sinv u) = clip n m u.
+Hypothesis Sinv_S : forall u, Sinv (S u) = clip n m u.
+Hypothesis S_mul : forall a b, S (fmul a b) = fmul (S a) (S b).
+
+Definition cstep (u K : fld) : fld := centered F Finv S Sinv u K.
+
+Lemma csteps_from K0 Ks u :
+  fold_left cstep Ks (centered F Finv S Sinv u K0) = centered F Finv S Sinv u (fold_left fmul Ks K0).
+Proof.
+  revert K0. induction Ks as [|K Ks IH]; intros K0; cbn [fold_left]; [reflexivity|].
+  unfold cstep at 2.
+  rewrite (centered_compose n m F Finv S Sinv F_dom Finv_dom F_Finv S_Sinv S_mul).
+  apply IH.
+Qed.
+
+Theorem csteps_fold Ks u :
+  fold_left cstep Ks (clip n m u) = centered F Finv S Sinv u (fold_left fmul Ks fone).
+Proof.
+  rewrite <- (centered_id n m F Finv S Sinv F_dom Sinv_dom Finv_F F_Finv S_Sinv Sinv_S S_mul u). apply csteps_from.
+Qed.
+End CenteredSteps.
+
 (* product of unit phasors with additive phase = phasor of the summed distance *)
 Section PhasorSteps.
 Variable ph : R -> R.
@@ -49,6 +80,23 @@ Proof.
   rewrite <- (kernel_zero ph ph_add). apply G.
 Qed.
 End PhasorSteps.
+
+(* a program of distances z1 ... zk through one kernel family with additive phases = ONE step by the summed distance *)
+Section DistancePrograms.
+Variable ph : nat -> nat -> R -> R.
+Hypothesis ph_add : forall i j z1 z2, ph i j (z1 + z2) = ph i j z1 + ph i j z2.
+Definition kfam (z : R) : fld := fun i j => Cexpi (ph i j z).
+Lemma kfam_zero : kfam 0 = fone.
+Proof. extensionality i; extensionality j. unfold kfam, fone. apply (kernel_zero (ph i j) (ph_add i j)). Qed.
+Lemma kfam_mul z1 z2 : fmul (kfam z1) (kfam z2) = kfam (z1 + z2).
+Proof. extensionality i; extensionality j. unfold fmul, kfam. apply (kernel_compose (ph i j) (ph_add i j)). Qed.
+Lemma kfam_product zs : fold_left fmul (map kfam zs) fone = kfam (fold_left Rplus zs 0).
+Proof.
+  assert (G : forall zs a, fold_left fmul (map kfam zs) (kfam a) = kfam (fold_left Rplus zs a)).
+  { induction zs0 as [|z zs0 IH]; intros a; cbn [map fold_left]; [reflexivity|]. rewrite kfam_mul. apply IH. }
+  rewrite <- kfam_zero. apply G.
+Qed.
+End DistancePrograms.
 
 (* the contracts are satisfiable on every grid (identity transform): the theorems are not vacuous.
    The intended instance is the 2-D DFT with fftshift rolls; see DESIGN.md (trusted base). *)
